@@ -25,16 +25,29 @@ class EngineError(Exception):
 
 
 def sh(cmd, timeout=None, cwd=None, env=None, limit_mem=False, stdin=None):
+    """run a command in its own process group; on timeout the WHOLE group is killed (cbmc runs under /usr/bin/time and may
+    spawn an external SAT/SMT solver: killing only the direct child would leave them running)"""
+    import signal
     def pre():
+        os.setsid()
         if limit_mem:
             resource.setrlimit(resource.RLIMIT_AS, (MEM_LIMIT, MEM_LIMIT))
     t0 = time.time()
+    p = subprocess.Popen(cmd, stdout=subprocess.PIPE, stderr=subprocess.PIPE, stdin=subprocess.PIPE if stdin is not None else None,
+                         cwd=cwd, env=env, preexec_fn=pre)
     try:
-        p = subprocess.run(cmd, stdout=subprocess.PIPE, stderr=subprocess.PIPE, timeout=timeout, cwd=cwd, env=env,
-                           preexec_fn=pre if limit_mem else None, input=stdin)
-        return p.returncode, p.stdout.decode("utf-8", "replace"), p.stderr.decode("utf-8", "replace"), time.time() - t0
-    except subprocess.TimeoutExpired as e:
-        return -9, (e.stdout or b"").decode("utf-8", "replace"), "TIMEOUT", time.time() - t0
+        so, se = p.communicate(input=stdin, timeout=timeout)
+        return p.returncode, so.decode("utf-8", "replace"), se.decode("utf-8", "replace"), time.time() - t0
+    except subprocess.TimeoutExpired:
+        try:
+            os.killpg(p.pid, signal.SIGKILL)
+        except OSError:
+            pass
+        try:
+            so, se = p.communicate(timeout=10)
+        except Exception:
+            so, se = b"", b""
+        return -9, so.decode("utf-8", "replace"), "TIMEOUT", time.time() - t0
 
 
 def file_hash(paths):
